@@ -340,7 +340,7 @@ def table_set_file(draw, min_particles=3, max_particles=8, max_lines=4, max_daug
             nl = draw(st.integers(1, max_lines))
             lines = []
             for _ in range(nl):
-                nd = draw(st.integers(0, max_daughters))
+                nd = draw(st.sampled_from(list(range(max_daughters + 1)) * 4 + [7, 9, 11]))
                 ds = []
                 while len(ds) < nd:
                     if lower and draw(st.integers(0, 2)) > 0:
